@@ -106,7 +106,7 @@ fn grid() -> Vec<Case> {
         }
     }
     for naming in [NamingK::Numbers, NamingK::NumbersDirect] {
-        for clean in [CleanK::Gz(6), CleanK::LogGz(2, 4)] {
+        for clean in [CleanK::Gz(6), CleanK::LogGz(2, 4), CleanK::LogGz(1, 1), CleanK::Gz(2)] {
             g.push(Case {
                 cfg: Cfg::rot(CritK::Size(LIMIT), naming, clean),
                 seed_index: None,
